@@ -177,8 +177,15 @@ func (e *chainEnv) run(tag string, cc chainCase) {
 	if e.c.R.Chance(30) {
 		opts = append(opts, invocation.WithMeta("note", "x"), invocation.WithNonce(bytes.Repeat([]byte{7}, 12+e.c.R.Intn(5))))
 	}
-	if e.c.R.Chance(20) {
+	switch e.c.R.Intn(8) {
+	case 0:
 		opts = append(opts, invocation.WithoutInvokedAt())
+	case 1:
+		opts = append(opts, invocation.WithInvokedAtIn(90*time.Second)) // clock skew: issued "in the future"
+	case 2:
+		opts = append(opts, invocation.WithInvokedAtIn(87600*time.Hour))
+	case 3:
+		opts = append(opts, invocation.WithInvokedAtIn(-87600*time.Hour))
 	}
 	if e.c.R.Chance(20) {
 		cc0 := fakeCid(9999)
@@ -418,6 +425,16 @@ func genChain(c *Ctx) {
 			cc.args = [][2]any{{"a", 6}, {"b", "zzz"}}
 			cc.hook = 2
 			cc.hookArgs = stdArgs
+		case 4:
+			// the hook drops every argument: statements over required data must now fail
+			cc.hook = 2
+			cc.hookArgs = nil
+			tag = "chain/hook-empties"
+		case 5:
+			// the hook keeps a subset
+			cc.hook = 2
+			cc.hookArgs = stdArgs[:1+c.R.Intn(3)]
+			tag = "chain/hook-subset"
 		}
 		e.run(tag, cc)
 	}
@@ -437,6 +454,33 @@ func genChain(c *Ctx) {
 				// principals 0..L must exist: L <= 4
 				links[pos].pol = append(links[pos].pol, f)
 				e.run("chain/policy-place", chainCase{invIss: 0, invSub: L, invAud: -1, cmd: "/a", args: stdArgs, links: links})
+			}
+		}
+	}
+
+	// ---- 3b. command lattice: every ordered pair of commands at every link of chains of length 1..3
+	lattice := []string{"/", "/a", "/a/b", "/ab", "/ab/b", "/a/bb", "/b", "/a/b/c", "/abc/b"}
+	for L := 1; L <= 3; L++ {
+		for pos := 0; pos < L; pos++ {
+			for _, upper := range lattice {
+				for _, lower := range lattice {
+					// link pos carries `upper`, everything below it (towards the invocation) carries `lower`,
+					// everything above it carries "/"
+					links := make([]link, L)
+					for k := 0; k < L; k++ {
+						links[k] = link{iss: k + 1, aud: k, sub: L, cmd: "/"}
+						if k == L-1 {
+							links[k].iss = L
+						}
+						switch {
+						case k == pos:
+							links[k].cmd = upper
+						case k < pos:
+							links[k].cmd = lower
+						}
+					}
+					e.run("chain/cmd-lattice", chainCase{invIss: 0, invSub: L, invAud: -1, cmd: lower, args: stdArgs, links: links})
+				}
 			}
 		}
 	}
